@@ -13,6 +13,9 @@ CDFt/QDM year windows on/off, ISIMIP running-window and month mode, explicit and
 the LinearScaling / DeltaChange mean-change identities; ISIMIP: output - (step-6 result) = slope * (year - mean year)
 with the slope of the annual means of cm_future recomputed independently, and a linear within-period trend added to
 cm_future passes through unchanged.
+Round 5: the same shift / scale identities for debiasers built from the library defaults while OTHER public constructions happen in the
+process (any construction order), through apply_location and apply (serial / parallel / failsafe), with every accepted time encoding and
+non-contiguous layouts (process_history_oracle).
 """
 import datetime
 import random
@@ -26,8 +29,12 @@ from harness import isimip_corr as IC
 from harness import probes
 
 PROP = "C02"
-TARGETS = ["IbicusModel.Props.C02", "IbicusModel.Lemmas.GenDebiasers"]  # the audit imports both
-GEN = ["Debiasers", "IsimipVars"]  # IsimipVars: which variables run with the additive trend method (Lemmas.C02.additive_variables_cfg)
+TARGETS = ["IbicusModel.Props.C02", "IbicusModel.Lemmas.GenDebiasers", "IbicusModel.Lemmas.GenIsimipSteps"]  # the audit imports them
+GEN = ["Debiasers", "IsimipVars",  # IsimipVars: which variables run with the additive trend method (Lemmas.C02.additive_variables_cfg)
+       "IsimipFreq", "IsimipSteps"]  # IsimipSteps (imports Gen.IsimipFreq): ISIMIP steps 3 / 5 / 7 regenerated from the source (tier A)
+TARGETS += ["IbicusModel.Lemmas.GenDebWin"]  # tier A of the per-window transfer functions (CDFt, ECDFM, QDM, QM, SDM absolute): the audit imports it
+GEN += ["DebWin"]  # Gen.DebWin: dataflow programs extracted by translator/extract_debiasers.py
+TARGETS += ["IbicusModel.Lemmas.GenDebWinSdm"]  # SDM relative denotes Model.Debiasers.sdmRelative; CDFt steps with one draw list
 
 SHIFTS = [0.5, -0.5, 3.0, -3.0, 1e3, -1e3]
 FACTORS = [0.5, 2.0, 10.0, 250.0, 1.0 / 400.0]  # the extreme factors expose a clipped change factor (seeded C02-1)
@@ -576,6 +583,309 @@ def apply_oracle(rng, n_cases, res, problems):
                                  f"{rhs.ravel().tolist()}", {**case, "what": "apply-mean-change"}))
 
 
+# ------------------------------------------------------------------ round 5: a configuration does not depend on the history of the process
+# Quantifier covered: `configurations` ("for EVERY additive / trend-preserving configuration ...", "for the multiplicative configurations ...")
+# read as the user meets it: a configuration is what a PUBLIC constructor returns for its arguments -- whatever else has been constructed or
+# applied earlier in the same process (any construction order: the other variables of the same class, the same variable with deviating
+# options, other classes, `for_precipitation`, the plain constructors; before the construction of the judged debiaser, between its
+# construction and its first call, between its two calls), with the variable given as a string (any case) or as a Variable object and with
+# NOTHING but the library defaults passed -- and `inputs` ("with explicit or inferred dates"): every time encoding the library accepts
+# (probes.DATE_KINDS), contiguous and non-contiguous memory layouts, through `apply_location` and through `apply` serial / parallel,
+# failsafe on / off.  The judgement is the property's own (out(F + c) - out(F) = c, out(k F) = k out(F)), tolerances of the main oracle.
+_RW = ["LinearScaling", "DeltaChange", "QuantileMapping", "ScaledDistributionMapping", "ECDFM", "QuantileDeltaMapping", "CDFt", "ISIMIP"]
+_LS_VARS = ["tas", "pr", "tasmin", "tasmax", "hurs", "psl", "rlds", "rsds", "sfcwind"]
+_Q_VARS = ["tas", "pr", "hurs", "psl", "rlds", "sfcwind", "tasmin", "tasmax"]
+# the documented support matrix (ibicus/debias/__init__.py): class -> variables with default or experimental default settings
+HIST_SUPPORT = {
+    "LinearScaling": _LS_VARS, "DeltaChange": _LS_VARS, "QuantileMapping": _Q_VARS, "ECDFM": _Q_VARS, "QuantileDeltaMapping": _Q_VARS,
+    "ScaledDistributionMapping": ["tas", "pr", "tasmin", "tasmax"],
+    "CDFt": ["tas", "pr", "tasmin", "tasmax", "hurs", "psl", "rlds", "rsds", "sfcwind", "tasrange", "tasskew"],
+    "ISIMIP": ["hurs", "pr", "prsnratio", "psl", "rlds", "rsds", "sfcwind", "tas", "tasrange", "tasskew"],
+}
+# options a user may legitimately pass on top of the defaults (valid values only; distributions by their scipy.stats name)
+HIST_OPTIONS = {
+    "LinearScaling": {"delta_type": ["additive", "multiplicative"]},
+    "DeltaChange": {"delta_type": ["additive", "multiplicative"]},
+    "QuantileMapping": {"detrending": ["additive", "multiplicative", "no_detrending"], "mapping_type": ["parametric", "nonparametric"],
+                        "distribution": ["norm", "gamma"]},
+    "ScaledDistributionMapping": {"mapping_type": ["absolute", "relative"], "distribution": ["norm", "gamma"]},
+    "ECDFM": {"distribution": ["norm", "gamma", "beta"]},
+    "QuantileDeltaMapping": {"trend_preservation": ["absolute", "relative"], "distribution": ["norm", "gamma"]},
+    "CDFt": {"delta_shift": ["additive", "multiplicative", "no_shift"], "SSR": [True, False],
+             "iecdf_method": ["linear", "inverted_cdf", "hazen"], "ecdf_method": ["linear_interpolation", "step_function"]},
+    "ISIMIP": {"detrending": [True, False], "nonparametric_qm": [True, False], "event_likelihood_adjustment": [True, False],
+               "scale_by_annual_cycle_of_upper_bounds": [True, False], "trend_preservation_method": ["additive", "multiplicative", "mixed", "bounded"],
+               "impute_missing_values": [True, False], "detrending_with_significance_test": [True, False],
+               "trend_transfer_only_for_values_within_threshold": [True, False], "ks_test_for_goodness_of_cdf_fit": [True, False],
+               "distribution": ["norm", "gamma"]},
+}
+HIST_WINDOW_OPTIONS = {"running_window_mode": [True, False], "running_window_length": [11, 31, 91], "running_window_step_length": [1, 7, 31]}
+# what the plain constructors need (the values are drawn from HIST_OPTIONS)
+HIST_CONSTRUCTOR = {"LinearScaling": ["delta_type"], "DeltaChange": ["delta_type"], "CDFt": [], "QuantileMapping": ["distribution", "detrending", "mapping_type"],
+                    "ScaledDistributionMapping": ["distribution", "mapping_type"], "ECDFM": ["distribution"],
+                    "QuantileDeltaMapping": ["distribution", "trend_preservation"],
+                    "ISIMIP": ["distribution", "trend_preservation_method", "detrending", "nonparametric_qm"]}
+HIST_FOR_PRECIPITATION = ["QuantileMapping", "ECDFM", "QuantileDeltaMapping", "ScaledDistributionMapping"]
+# tas-like K -> the units of the variable (offset, factor)
+HIST_UNITS = {"tas": (0.0, 1.0), "tasmin": (-5.0, 1.0), "tasmax": (5.0, 1.0), "psl": ISIMIP_ADDITIVE_VARIABLES["psl"], "rlds": ISIMIP_ADDITIVE_VARIABLES["rlds"]}
+# the judged debiasers, grouped so that every class is met in every round: (kind, class, variables, options -- {} = the library defaults)
+HIST_TARGET_GROUPS = [
+    ("add", "LinearScaling", ["tas", "tasmin", "tasmax", "psl", "rlds"], {}),
+    ("add", "ISIMIP", ["tas", "psl", "rlds"], {}),
+    ("add", "DeltaChange", ["tas", "tasmin", "tasmax", "psl", "rlds"], {}),
+    ("add", "CDFt", ["tas", "tasmin", "tasmax", "psl", "rlds"], {}),
+    ("mult", "LinearScaling", ["pr", "rsds", "sfcwind"], {}),
+    ("add", "ScaledDistributionMapping", ["tas", "tasmin", "tasmax"], {}),
+    ("add", "QuantileMapping", ["tas"], {}),
+    ("add", "QuantileDeltaMapping", ["tas"], {}),
+    ("mult", "DeltaChange", ["pr", "rsds", "sfcwind"], {}),
+    ("add", "ECDFM", ["tas"], {"distribution": "norm"}),  # the default beta family is fitted numerically (see ecdfm_beta_note)
+    ("mult", "QuantileMapping", ["tas"], {"detrending": "multiplicative", "mapping_type": "nonparametric"}),
+]
+
+
+def hist_step_text(st):
+    kw = ", ".join(f"{k}={('scipy.stats.' + v) if k == 'distribution' else repr(v)}" for k, v in st["kw"].items())
+    if st["how"] == "for_precipitation":
+        return f"{st['cls']}.for_precipitation({kw})"
+    if st["how"] == "constructor":
+        return f"{st['cls']}({kw})"
+    v = {"upper": repr(st["var"].upper()), "object": "ibicus.variables." + st["var"]}.get(st["var_as"], repr(st["var"]))
+    return f"{st['cls']}.from_variable({v}{', ' if kw else ''}{kw})" + (" + apply_location on a short series" if st.get("use") else "")
+
+
+def hist_construct(st):
+    """a (JSON-able) step -> the debiaser, through the public constructors only"""
+    import ibicus.debias
+    import ibicus.variables
+    import scipy.stats
+
+    cls = getattr(ibicus.debias, st["cls"])
+    kw = dict(st["kw"])
+    if "distribution" in kw:
+        kw["distribution"] = getattr(scipy.stats, kw["distribution"])
+    with warnings.catch_warnings():
+        warnings.simplefilter("ignore")
+        if st["how"] == "for_precipitation":
+            return cls.for_precipitation(**kw)
+        if st["how"] == "constructor":
+            return cls(**kw)
+        v = st["var"]
+        v = v.upper() if st["var_as"] == "upper" else getattr(ibicus.variables, v) if st["var_as"] == "object" else v
+        return cls.from_variable(v, **kw)
+
+
+def hist_gen_steps(rng, cls_name, var):
+    """what happens in the process besides the judged debiaser: the same class for EVERY supported variable (constructors are cheap), half of
+    them with deviating options, the judged variable itself with deviating options, a few other classes, for_precipitation / plain constructors"""
+    def options(c, p=0.5):
+        kw = {}
+        if rng.random() < p:
+            for key in rng.sample(sorted(HIST_OPTIONS[c]), rng.randint(1, min(3, len(HIST_OPTIONS[c])))):
+                kw[key] = rng.choice(HIST_OPTIONS[c][key])
+            if rng.random() < 0.4:
+                key = rng.choice(sorted(HIST_WINDOW_OPTIONS))
+                kw[key] = rng.choice(HIST_WINDOW_OPTIONS[key])
+        return kw
+
+    def fv(c, v, kw):
+        cheap = v in ("tas", "tasmin", "tasmax") and kw.get("distribution", "norm") == "norm" and (
+            c in ("LinearScaling", "DeltaChange", "CDFt", "ScaledDistributionMapping") or (v == "tas" and c in ("QuantileMapping", "QuantileDeltaMapping", "ISIMIP")))
+        return {"cls": c, "how": "from_variable", "var": v, "var_as": rng.choice(["str", "str", "upper", "object"]), "kw": kw,
+                "use": bool(cheap and rng.random() < 0.2)}
+
+    steps = [fv(cls_name, v, options(cls_name)) for v in HIST_SUPPORT[cls_name]]
+    steps.append(fv(cls_name, var, options(cls_name, 1.0)))
+    for _ in range(rng.randint(0, 3)):
+        c = rng.choice(_RW)
+        steps.append(fv(c, rng.choice(HIST_SUPPORT[c]), options(c)))
+    if rng.random() < 0.5:
+        c = rng.choice([cls_name] + _RW)
+        steps.append({"cls": c, "how": "constructor", "var": None, "var_as": None,
+                      "kw": {key: rng.choice(HIST_OPTIONS[c][key]) for key in HIST_CONSTRUCTOR[c]}})
+    if rng.random() < 0.4:
+        c = cls_name if cls_name in HIST_FOR_PRECIPITATION and rng.random() < 0.6 else rng.choice(HIST_FOR_PRECIPITATION)
+        steps.append({"cls": c, "how": "for_precipitation", "var": None, "var_as": None, "kw": {}})
+    rng.shuffle(steps)
+    return steps
+
+
+def hist_run_steps(steps, small, stats, done):
+    """executes the steps; what they raise is not C02's business (counted, never a verdict)"""
+    for st in steps:
+        try:
+            d = hist_construct(st)
+            done.add(f"{st['cls']}({st['var'] or st['how']})")
+            stats["constructed"] += 1
+        except Exception:  # noqa: BLE001
+            stats["construct_raised"] += 1
+            continue
+        if st.get("use"):
+            try:
+                run_loc(d, small[0], small[1], small[2], small[3])
+                stats["applied"] += 1
+            except Exception:  # noqa: BLE001
+                stats["apply_raised"] += 1
+
+
+def process_history_oracle(rng, n_cases, res, problems):
+    """the shift / scale identities for debiasers built from the library defaults, with other public constructions (and uses) before, between
+    and after -- see the comment block above; every case records the full call sequence"""
+    from harness import gridprobes as G
+
+    stats = res.extra.setdefault("process_history", {"cases": 0, "constructed": 0, "construct_raised": 0, "applied": 0, "apply_raised": 0,
+                                                     "parallel_cases": 0, "failsafe_cases": 0, "apply_cases": 0})
+    samples = res.extra.setdefault("oracle_samples", [])
+    done = set()
+    n_par = 0
+    ng = len(HIST_TARGET_GROUPS)
+    for k in range(n_cases):
+        kind, cls_name, vs, opts = HIST_TARGET_GROUPS[k % ng]
+        rnd = k // ng
+        var = vs[(rnd + C.seed()) % len(vs)]
+        nprs = np.random.RandomState(rng.randint(0, 2**31 - 1))
+        tkw = dict(opts)
+        if cls_name == "ISIMIP":  # the default step length of 1 day means 366 windows: only the step is passed
+            tkw["running_window_step_length"] = rng.choice([15, 31])
+        elif rng.random() < 0.4:
+            tkw.update(running_window_mode=True, running_window_length=rng.choice([31, 61]), running_window_step_length=rng.choice([15, 31]))
+        target = {"cls": cls_name, "how": "from_variable", "var": var, "var_as": rng.choice(["str", "str", "upper", "object"]), "kw": tkw}
+        steps = hist_gen_steps(rng, cls_name, var)
+        position = "before the construction" if rnd == 0 else rng.choice(["before the construction", "before the construction",
+                                                                          "between construction and first call", "between the two calls"])
+        # ---- data: dated daily series over several years, one to two locations
+        via = "apply_location" if rng.random() < 0.5 else "apply"
+        shape = (1, 1) if via == "apply_location" else rng.choice([(1, 1), (1, 2), (2, 1)])
+        y0 = rng.randint(1955, 2060)
+        dO = probes.dates_from(datetime.date(y0, 1, 1), 365 * rng.randint(2, 4) + rng.randint(0, 30))
+        dH = probes.dates_from(datetime.date(y0, rng.choice([1, 1, 7]), 1), 365 * rng.randint(2, 4) + rng.randint(0, 30))
+        dF = probes.dates_from(datetime.date(y0 + 30, 1, 1) + datetime.timedelta(days=rng.choice([0, 0, rng.randint(0, 364)])), 365 * rng.randint(2, 4) + rng.randint(0, 30))
+        trend = rng.choice(["stationary", "trend"])
+        rate = rng.choice([-1, 1]) * rng.choice([0.5, 2.0, 6.0]) if trend == "trend" else 0.0
+        cols = []
+        for _ in range(shape[0] * shape[1]):
+            o, h, f = probes.tas_like(nprs, dO, 283, 3), probes.tas_like(nprs, dH, 285, 4), probes.tas_like(nprs, dF, 288, 4)
+            f = f + rate * np.arange(dF.size) / 365.0
+            if kind == "mult":
+                o, h, f = (np.exp((x - 283.0) / 6.0) * 3.0 for x in (o, h, f))
+            else:
+                off, fac = HIST_UNITS[var]
+                o, h, f = (off + fac * x for x in (o, h, f))
+            cols.append((o, h, f))
+        O, H, F = (np.stack([c[i] for c in cols], axis=1).reshape((-1,) + tuple(shape)) for i in range(3))
+        enc = rng.choice(["inferred"] + list(probes.DATE_KINDS))
+        times = None if enc == "inferred" else tuple(probes.present(d, enc) for d in (dO, dH, dF))
+        if via == "apply_location":
+            layout = rng.choice(["C", "strided"])
+            failsafe = parallel = False
+        else:
+            layout = rng.choice(G.LAYOUTS)
+            failsafe = rng.random() < 0.4
+            parallel = n_par < 2 and rng.random() < 0.5  # two pool runs per quick run (the pool start is what costs)
+            n_par += int(parallel)
+
+        def lay(a):
+            if via == "apply":
+                return G.relayout(a, layout)
+            a = a[:, 0, 0]
+            if layout == "strided":
+                big = np.zeros(2 * a.size)
+                big[::2] = a
+                return big[::2]
+            return np.ascontiguousarray(a)
+
+        def call(deb, f2, fs=failsafe):
+            """-> ('ok', array) | ('error', class name, message)"""
+            if via == "apply":
+                kw = {} if times is None else dict(time_obs=times[0], time_cm_hist=times[1], time_cm_future=times[2])
+                return G.run_apply(deb, lay(O), lay(H), lay(f2), parallel=parallel, nproc=2 if parallel else None, failsafe=fs, **kw)
+            try:
+                return ("ok", run_loc(deb, lay(O), lay(H), lay(f2), times))
+            except Exception as ex:  # noqa: BLE001
+                return ("error", type(ex).__name__, G.safe_str(ex))
+
+        sm_d = probes.dates_from(datetime.date(y0, 3, 1), 400)
+        small = (probes.tas_like(nprs, sm_d, 283, 3), probes.tas_like(nprs, sm_d, 285, 4), probes.tas_like(nprs, sm_d, 288, 4), (sm_d, sm_d, sm_d))
+        label = hist_step_text(target)
+        case = {"config": "history/" + label, "what": "process-history", "target": label, "position_of_the_other_calls": position,
+                "other_calls_in_this_case": [hist_step_text(s) for s in steps],
+                "constructed_earlier_in_this_process_by_this_oracle": sorted(done),
+                "via": via, "grid": list(shape), "layout": layout, "time_encoding": enc, "failsafe": failsafe, "parallel": parallel,
+                "sizes": [int(O.shape[0]), int(H.shape[0]), int(F.shape[0])], "startF": str(dF[0]), "trend": trend, "rate_per_year": rate,
+                "case": k, "seed": C.seed()}
+        stats["cases"] += 1
+        stats["apply_cases"] += int(via == "apply")
+        stats["parallel_cases"] += int(parallel)
+        stats["failsafe_cases"] += int(failsafe)
+        if position == "before the construction":
+            hist_run_steps(steps, small, stats, done)
+        try:
+            deb = hist_construct(target)
+        except Exception as ex:  # noqa: BLE001
+            problems.append((f"{label} raises {type(ex).__name__}: {str(ex)[:120]}", {**case, "what": "exception"}))
+            continue
+        if position == "between construction and first call":
+            hist_run_steps(steps, small, stats, done)
+        r = call(deb, F)
+        if r[0] == "ok" and failsafe and isinstance(r[1], np.ndarray) and not np.all(np.isfinite(r[1])):
+            r = call(deb, F, fs=False)  # failsafe turns an exception into NaN: ask again for the exception itself
+        if r[0] == "error":
+            problems.append((f"{label} via {via}: {r[1]} on well-formed input: {r[2][:120]}", {**case, "what": "exception"}))
+            continue
+        base = r[1]
+        exp_shape = lay(O if cls_name == "DeltaChange" else F).shape  # DeltaChange transforms the observations
+        if not (isinstance(base, np.ndarray) and base.shape == exp_shape):
+            problems.append((f"{label} via {via}: returns {type(base).__name__} of shape {getattr(base, 'shape', None)} instead of {exp_shape}",
+                             {**case, "what": "exception"}))
+            continue
+        if not np.all(np.isfinite(base)):
+            res.extra["skipped_nonfinite"] = res.extra.get("skipped_nonfinite", 0) + 1
+            continue
+        base = np.array(base, dtype=float)
+        if position == "between the two calls":
+            hist_run_steps(steps, small, stats, done)
+        scale = float(max(np.abs(O).max(), np.abs(H).max(), np.abs(F).max()))
+        m_f, sd_f = float(np.mean(np.abs(F))), float(np.std(F))
+        if kind == "add":
+            changes = [rng.choice(SHIFTS), rng.choice([-1, 1]) * rng.choice([1e-6 * m_f, 1e-2 * sd_f, 10.0 * sd_f])]
+        else:
+            changes = [rng.choice(FACTORS), 1.0 + rng.choice([-1, 1]) * rng.choice([1e-6, 3e-5, 1e-3])]
+        for j, ch in enumerate(changes):
+            # the second call on the same object (a user's loop over scenarios) or on a newly constructed one
+            same = (k + j) % 2 == 0 or position == "between the two calls"
+            try:
+                deb2 = deb if same else hist_construct(target)
+            except Exception as ex:  # noqa: BLE001
+                problems.append((f"{label} raises {type(ex).__name__}: {str(ex)[:120]}", {**case, "what": "exception"}))
+                break
+            r = call(deb2, F + ch if kind == "add" else F * ch)
+            if r[0] == "error":
+                problems.append((f"{label} via {via}: the run on the changed cm_future raises {r[1]}: {r[2][:120]}", {**case, "what": "exception", "change": ch}))
+                break
+            out = r[1]
+            if not (isinstance(out, np.ndarray) and out.shape == base.shape):
+                problems.append((f"{label} via {via}: the run on the changed cm_future returns {type(out).__name__} of shape {getattr(out, 'shape', None)}",
+                                 {**case, "what": "exception", "change": ch}))
+                break
+            if kind == "add":
+                devs, tol = np.abs(out - base - ch), shift_tol(ch, scale)
+            else:
+                devs, tol = np.abs(out - ch * base), scale_tol(ch, float(np.abs(base).max()))
+            dev = float(np.max(devs))
+            res.count(("history", label, position, via, tuple(shape), layout, enc, failsafe, parallel, same, ch, trend), True)
+            if len([x for x in samples if x.get("what") == "process-history"]) < 1:
+                samples.insert(0, {**case, "change": ch, "max_dev": dev, "tol": tol})
+            if not dev <= tol:
+                i = np.unravel_index(int(np.argmax(np.where(np.isnan(devs), np.inf, devs))), devs.shape)
+                said = (f"adding c={ch} to cm_future changes the output by {float(out[i] - base[i])!r}" if kind == "add"
+                        else f"scaling cm_future by k={ch} scales the output by {float(out[i] / base[i])!r}")
+                problems.append((f"{label} ({position}: {len(steps)} other public constructions; via {via}, {layout} layout, time {enc}"
+                                 f"{', failsafe' if failsafe else ''}{', parallel' if parallel else ''}): {said} at index {[int(x) for x in i]} "
+                                 f"(max deviation {dev:.3g} > tol {tol:.3g})",
+                                 {**case, "what": "process-history", "change": ch, "second_call_on_the_same_object": same, "index": [int(x) for x in i]}))
+                break
+
+
 # ------------------------------------------------------------------ round 4: ties of the new model definitions
 def inferred_dates_corr(rng, tier, res):
     """tier B of Model/InferredDates.lean (driver DrvInferredDates): the (year, day of year, month) arrays the model infers for a
@@ -712,6 +1022,12 @@ def run(tier, res, force_search=False):
         "float-rounding discontinuities accepted and counted (exact arithmetic: the theorems): non-parametric QuantileMapping is not run with cm_future = "
         "cm_hist + c (the detrended values are the jump points of the step ecdf of cm_hist); CDFt with a discrete iecdf method: < 1 % isolated elements",
         "half of the oracle's cases run both calls on one debiaser object with the first result still held (must be a different, unchanged array)",
+        "process-history oracle (runtime-only clause: a configuration is what the public constructor returns, independent of what the process "
+        "constructed or applied before -- module-level state is Python, the model's configurations are values): debiasers built from the library "
+        "defaults (every class, the additive variables tas / tasmin / tasmax / psl / rlds, the multiplicative pr / rsds / sfcwind) judged by the shift / "
+        "scale identity after, between and before other public constructions (the same class for every supported variable, deviating options, other "
+        "classes, for_precipitation, plain constructors, rejected constructions, short uses), via apply_location and apply (serial / parallel, "
+        "failsafe on / off), every accepted time encoding, contiguous and non-contiguous layouts; what the other calls raise is counted, never judged",
         "RUNTIME-ONLY clauses (decided by the oracle on the real code, no theorem): (1) two calls on one debiaser object return distinct arrays and the "
         "first result is not modified -- object identity / buffer reuse is numpy + Python object state; the model's window functions are pure "
         "functions of their arguments, which is the specification the oracle ties the code to (state and purity as such: C12); (2) `apply` returns a "
@@ -759,6 +1075,8 @@ def run(tier, res, force_search=False):
     oracle(rng, n_or, res, problems)
     isimip_trend_oracle(rng, n_or // 3, res, problems)
     apply_oracle(rng, (2 * n_or) // 3, res, problems)
+    # own stream: the cases above are the same with and without this oracle
+    process_history_oracle(random.Random(C.seed() * 104729 + 5), (2 * n_or) // 3, res, problems)
     if not quick:
         res.extra["ecdfm_default_beta_fit"] = ecdfm_beta_note(rng)
 
@@ -788,6 +1106,16 @@ def replay(data):
         print("replay: no failing input recorded (broken proof obligation / correspondence):", data.get("broken"))
         return 1
     os.environ["VERIF_SEED"] = str(fi.get("seed", 0))
+    if str(fi.get("config", "")).startswith("history/"):
+        # a recorded call sequence of process_history_oracle: its cases 0 .. case from its own stream reproduce every public call this
+        # oracle made before the judged one (the full re-run below follows if other parts of the check were needed for it to manifest)
+        res, problems = C.Result(PROP, "quick"), []
+        process_history_oracle(random.Random(C.seed() * 104729 + 5), int(fi.get("case", 0)) + 1, res, problems)
+        hit = [p for p, c in problems if c.get("case") == fi.get("case")]
+        for p in hit:
+            print("REPRODUCED:", p[:300])
+        if hit:
+            return 1
     res = C.Result(PROP, "quick")
     run("quick", res)
     hit = [d for d, r in res.violations if r.get("failing_input") and r["failing_input"].get("config") == fi.get("config")]
